@@ -230,6 +230,21 @@ def run(ctx):
         for s, ty, _ in grammargen.cover_texts(ctx, d, variants=3, edge=True, seed=POOL_SEED):
             if s not in seen_plain:
                 work.append((s, d, 'production-cover-edge', s))
+        # ... and every value-carrying token position of the cover sentences with EVERY edge spelling of its kind, one position
+        # at a time (positions spelled "x" or ? -- a name in the shortest sentence -- also take the quoted-name spellings)
+        from .corpus import lex_spans
+        for s, ty, _ in grammargen.cover_texts(ctx, d, variants=1, seed=POOL_SEED):
+            sp = lex_spans(d, s)
+            if not sp or len(sp) > 40:
+                continue
+            for t_, a_, b_ in sp:
+                alts = list(grammargen.EDGE.get(t_, []))
+                if t_ in ('DQUOTE_STRING', 'PARAMETER'):
+                    alts += grammargen.EDGE['ID']
+                for v_ in alts:
+                    txt = s[:a_] + v_ + s[b_:]
+                    if txt not in seen_plain:
+                        work.append((txt, d, 'edge-substitution', txt))
         gen = grammargen.texts(ctx, d, (300 if thorough else 14) if d == 'mindsdb' else (100 if thorough else 5), seed=POOL_SEED)
         for s, ty, _ in gen:
             work.append((s, d, 'grammar-sentence', ' '.join(ty)))
